@@ -73,6 +73,7 @@ typedef struct {
     uint64_t off_id, off_tk, off_psk, off_sec; uint8_t off_key[16]; uint8_t off_haskey;
     /* outcome */
     uint8_t on_wire, completed, resumed, srv_err, srv_dead, cli_dead, cli_alert, srv_alert, cb_alert, data_ok, tampered;
+    uint8_t tcb_calls, tcb_cached; uint8_t tcb_key[16];   /* ticket callback: times called, 'key is cached' flag of the last call, key name asked for */
     int16_t rc_c, rc_s;
     uint64_t srv_ms, cli_ms, srv_sid;
     /* credential the client holds afterwards */
@@ -135,6 +136,38 @@ typedef struct {
     ssl_t *ssl; int hsDone, dead, closeReq, lastrc, nAlertIn, alertLevel, alertDesc;
     unsigned char *got; size_t gotlen, gotcap;
 } ep_t;
+
+/* ---- session-ticket callback, registered on the shared server key set (matrixSslSetSessionTicketCallback).
+ * The library calls it with g_sessTicketLock RELEASED while a TLS <= 1.2 ticket resumption is being decided: cached = 1 means
+ * "the named key is in the list (and pinned for you)", cached = 0 "not in the list, load it if you have it".  The harness
+ * records what it was asked, keeps the thread inside the callback for a moment and tells the rotator (relaxed atomics: no
+ * happens-before edge) which key is in flight, so that key deletion / loading happens exactly there. */
+static int g_in_tcb;            /* relaxed atomic: threads currently inside the callback */
+static uint32_t g_tcb_entries;  /* relaxed atomic: callback entries so far */
+static uint32_t g_tcb_serial;   /* relaxed atomic: serial of the key the most recent callback was asked about */
+static int32 ticket_cb(void *keys, unsigned char name[16], short cached)
+{
+    worker_t *w = tls_w; (void) keys;
+    if (!w) return cached ? 0 : -1;
+    if (w->cur) { op_t *o = w->cur; if (o->tcb_calls < 255) o->tcb_calls++; o->tcb_cached = cached ? 1 : 0; memcpy(o->tcb_key, name, 16); }
+    if (cached) {
+        char hex[9]; memcpy(hex, name + 2, 8); hex[8] = 0;
+        __atomic_store_n(&g_tcb_serial, (uint32_t) strtoul(hex, NULL, 16), __ATOMIC_RELAXED);
+        uint32_t e0 = __atomic_add_fetch(&g_tcb_entries, 1, __ATOMIC_RELAXED);
+        int inside = __atomic_add_fetch(&g_in_tcb, 1, __ATOMIC_RELAXED);
+        uint32_t r = (uint32_t) (vf_next(&w->rng) >> 24) & 0xff;
+        if (inside >= 2) sched_yield();     /* somebody else holds a key in here already: pass through quickly and finish first */
+        else {
+            /* mostly short, sometimes long: resumptions holding the same key leave the callback at very different times */
+            if (r < 48) sched_yield();
+            else { struct timespec ts = { 0, r >= 200 ? 1000000 + (long) (vf_next(&w->rng) % 3000000) : 20000 + (long) (vf_next(&w->rng) % 280000) }; nanosleep(&ts, NULL); }
+            /* another resumption came in meanwhile: outlast it (it clears the in-use mark of the key when it is done) */
+            if (__atomic_load_n(&g_tcb_entries, __ATOMIC_RELAXED) != e0) { struct timespec ts = { 0, 1500000 }; nanosleep(&ts, NULL); }
+        }
+        __atomic_sub_fetch(&g_in_tcb, 1, __ATOMIC_RELAXED);
+    }
+    return cached ? 0 : -1;     /* the application keeps no keys of its own: a key that left the list is gone */
+}
 
 static int32 cert_cb(ssl_t *ssl, psX509Cert_t *c, int32 alert)
 {
@@ -532,19 +565,22 @@ static void *worker_main(void *arg)
 }
 
 /* wait until `period` more worker operations have finished; returns 0 when all workers are done */
-static int pace(worker_t *w, uint32_t *last)
+static int g_in_tcb;            /* relaxed atomic: threads currently inside the ticket callback */
+static int pace_ex(worker_t *w, uint32_t *last, int watch_tcb)
 {
     long ns = 200000; uint32_t seen = __atomic_load_n(&g_done_ops, __ATOMIC_RELAXED);
     for (;;) {
         if (__atomic_load_n(&g_workers_left, __ATOMIC_RELAXED) <= 0) return 0;
         uint32_t d = __atomic_load_n(&g_done_ops, __ATOMIC_RELAXED);
         if (d - *last >= w->period) { *last = d; return 1; }
+        if (watch_tcb && __atomic_load_n(&g_in_tcb, __ATOMIC_RELAXED) >= 2) return 2;   /* two resumptions inside the callback now */
         /* back off while the workers make no progress, so that a deadlocked run is idle (the driver's progress watchdog
            looks at the CPU time of the process) */
         if (d != seen) { seen = d; ns = 200000; } else if (ns < 50000000) ns *= 2;
         struct timespec ts = { 0, ns }; nanosleep(&ts, NULL);
     }
 }
+static int pace(worker_t *w, uint32_t *last) { return pace_ex(w, last, 0); }
 
 /* ---- ticket-key rotator: the only thread that changes keys->sessTickets, so its model of the list is exact */
 static void tk_name(unsigned char name[16], uint32_t serial) { memset(name, 0, 16); snprintf((char *) name, 16, "tk%08x-c20", serial); name[15] = 'K'; }
@@ -565,12 +601,43 @@ static void *rotator_main(void *arg)
     uint32_t live[8]; int nlive = 1; live[0] = 0;   /* key 0 was loaded by main before the threads started */
     uint32_t serial = 1, last = 0;
     pthread_barrier_wait(&g_start);
-    while (pace(w, &last)) {
+    int pc;
+    while ((pc = pace_ex(w, &last, nlive >= 2)) != 0) {
         uint32_t r = vf_below(&w->rng, 100);
         int what; /* 0 add, 1 delete head, 2 delete newest, 3 delete missing, 4 delete middle */
         if (nlive <= (g_empty ? 0 : 1)) what = 0; else if (nlive >= 4) what = 1;
         else what = r < 40 ? 0 : r < 75 ? 1 : r < 82 ? 2 : r < 90 ? 3 : 4;
         if (what == 4 && nlive < 3) what = 1;
+        if (nlive >= 2 && (pc == 2 || vf_below(&w->rng, 100) < 45)) {
+            /* aim at a resumption that is inside the ticket callback right now: delete exactly the key it was told is cached,
+               then load a new key at once (the allocator tends to hand the freed block out again) */
+            for (int spin = 0; spin < 200 && __atomic_load_n(&g_in_tcb, __ATOMIC_RELAXED) <= 0; spin++) { struct timespec ts = { 0, 50000 }; nanosleep(&ts, NULL); }
+            if (__atomic_load_n(&g_in_tcb, __ATOMIC_RELAXED) > 0) {
+                uint32_t ser = __atomic_load_n(&g_tcb_serial, __ATOMIC_RELAXED); int idx = -1;
+                for (int i = 0; i < nlive; i++) if (live[i] == ser) idx = i;
+                if (idx >= 0) {
+                    /* a refused delete (key in use) is retried a few times while some resumption is still inside the callback, as an
+                       application that must get rid of a key would do */
+                    op_t *o = op_new(w, C_TKDEL); if (!o) break;
+                    tk_name(o->name, live[idx]); o->sub = 6; o->expect = 0;
+                    o->call = stamp();
+                    for (int attempt = 0; attempt < 80; attempt++) {   /* one logged operation: [first attempt, last attempt] */
+                        o->rc = matrixSslDeleteSessionTicketKey(g_skeys, o->name);
+                        o->ret = stamp();
+                        if (o->rc == 0 || __atomic_load_n(&g_in_tcb, __ATOMIC_RELAXED) <= 0) break;
+                        struct timespec ts = { 0, 30000 }; nanosleep(&ts, NULL);
+                    }
+                    if (pc == 2 && o->rc != 0) { struct timespec ts = { 0, 300000 }; nanosleep(&ts, NULL); }
+                    if (o->rc == 0) {
+                        memmove(&live[idx], &live[idx + 1], (nlive - idx - 1) * sizeof live[0]); nlive--;
+                        if (tk_add(w, serial) == 0) live[nlive++] = serial;
+                        serial++;
+                    }
+                    continue;
+                }
+            }
+            if (pc == 2) { struct timespec ts = { 0, 300000 }; nanosleep(&ts, NULL); continue; }   /* woken by the watch only */
+        }
         if (g_empty && nlive >= 1 && r >= 90 && r < 97) {
             /* empty the list, newest first; it is refilled one pacing period later */
             while (nlive > 0) {
@@ -712,11 +779,11 @@ static void hex16(char *d, const uint8_t *p) { for (int i = 0; i < 16; i++) spri
 
 static void dump_op(const op_t *o)
 {
-    char b[1400], k1[40], k2[40]; int n;
+    char b[1600], k1[40], k2[40], k3[40]; int n;
     static const char *cat[] = { "hs", "prng", "validate", "reset", "tkadd", "tkdel", "crl", "revq", "revhs" };
     n = snprintf(b, sizeof b, "{\"t\":\"op\",\"th\":%u,\"c\":%u,\"r\":%u,\"k\":\"%s\"", o->thr, o->call, o->ret, cat[o->cat]);
     if (o->cat == C_HS || o->cat == C_RESET) {
-        hex16(k1, o->off_key); hex16(k2, o->iss_key);
+        hex16(k1, o->off_key); hex16(k2, o->iss_key); hex16(k3, o->tcb_key);
         n += snprintf(b + n, sizeof b - n, ",\"lc\":%u,\"lt\":\"%s\",\"off_id\":\"%llx\",\"off_tk\":\"%llx\",\"off_psk\":\"%llx\",\"off_sec\":\"%llx\",\"off_key\":\"%s\"",
                       o->lc, lt_name[o->lt], (unsigned long long) o->off_id, (unsigned long long) o->off_tk, (unsigned long long) o->off_psk,
                       (unsigned long long) o->off_sec, o->off_haskey ? k1 : "");
@@ -725,12 +792,12 @@ static void dump_op(const op_t *o)
         n += snprintf(b + n, sizeof b - n, ",\"mode\":\"%s\",\"wire\":%u,\"curve\":%u,\"suite\":%u,\"cauth\":%u,\"sub\":%u,\"done\":%u,\"res\":%u,\"srv_err\":%u,\"srv_dead\":%u,\"cli_dead\":%u,"
                       "\"cli_alert\":%u,\"srv_alert\":%u,\"cb_alert\":%u,\"data_ok\":%u,\"tampered\":%u,\"rc_c\":%d,\"rc_s\":%d,"
                       "\"srv_ms\":\"%llx\",\"cli_ms\":\"%llx\",\"srv_sid\":\"%llx\",\"iss_id\":\"%llx\",\"iss_tk\":\"%llx\",\"iss_psk\":\"%llx\",\"iss_sec\":\"%llx\",\"iss_key\":\"%s\","
-                      "\"sent_c\":%d,\"sent_s\":%d,\"got_c\":%d,\"got_s\":%d",
+                      "\"sent_c\":%d,\"sent_s\":%d,\"got_c\":%d,\"got_s\":%d,\"tcb\":%u,\"tcb_cached\":%u,\"tcb_key\":\"%s\"",
                       mode_name[o->mode], o->on_wire, o->curve, o->suite, o->cauth, o->sub, o->completed, o->resumed, o->srv_err, o->srv_dead, o->cli_dead,
                       o->cli_alert, o->srv_alert, o->cb_alert, o->data_ok, o->tampered, o->rc_c, o->rc_s,
                       (unsigned long long) o->srv_ms, (unsigned long long) o->cli_ms, (unsigned long long) o->srv_sid,
                       (unsigned long long) o->iss_id, (unsigned long long) o->iss_tk, (unsigned long long) o->iss_psk, (unsigned long long) o->iss_sec, o->iss_haskey ? k2 : "",
-                      o->sent_c, o->sent_s, o->got_c, o->got_s);
+                      o->sent_c, o->sent_s, o->got_c, o->got_s, o->tcb_calls, o->tcb_cached, o->tcb_calls ? k3 : "");
     } else if (o->cat == C_TKADD || o->cat == C_TKDEL) {
         hex16(k1, o->name);
         n += snprintf(b + n, sizeof b - n, ",\"name\":\"%s\",\"rc\":%d,\"expect\":%d,\"sub\":%u", k1, o->rc, o->expect, o->sub);
@@ -802,6 +869,7 @@ int main(int argc, char **argv)
     static const int rotp[] = { 2, 5, 12 };
     W[g_nthreads].period = (uint32_t) (rotp[vf_below(&master, 3)] * g_nthreads);
     W[g_nthreads + 1].period = (uint32_t) (1 + vf_below(&master, 3)) * (g_nthreads > 3 ? g_nthreads / 2 : 1);
+    matrixSslSetSessionTicketCallback(g_skeys, ticket_cb);
     { worker_t *w = &W[g_nthreads]; int save = w->idx; w->idx = 0xfe; if (tk_add(w, 0) < 0) die("initial ticket key", 0); w->idx = save; w->ops[0].thr = save; }
 
     g_board = calloc((size_t) g_nthreads * LT_N, sizeof *g_board);
